@@ -734,6 +734,8 @@ def gen_mot(rng, text, safe):
 def gen_pipe(rng, text):
     if rng.chance(1, 4):
         mkey, marg = 'DBL', None
+    elif rng.chance(1, 3):
+        mkey, marg = rng.choice(['}', '}', '{']), None   # a paragraph: the empty line that ends it is left out
     else:
         mkey, marg = gen_mot(rng, text, True)           # a failing motion would leave the command line to be run as keys
     a1, a2 = gen_cnt(rng), (gen_cnt(rng) if rng.chance(1, 3) else 0)
